@@ -53,9 +53,9 @@ type SliceV struct {
 
 // MapV is a Go map: reference identity + SMT arrays for domain and content.
 type MapV struct {
-	Ref  *Term            // Int identity, 0 = nil map
-	Dom  *Term            // Array K Bool
-	Val  map[string]*Term // leaf name -> Array K leafSort ("" for scalar values)
+	Ref   *Term            // Int identity, 0 = nil map
+	Dom   *Term            // Array K Bool
+	Val   map[string]*Term // leaf name -> Array K leafSort ("" for scalar values)
 	K     *Sort
 	Elem  types.Type
 	Cands []*types.Func // maps of functions built from a literal: the functions that can be stored in it
